@@ -16,6 +16,7 @@ theorem MExpr.cell_none (e : MExpr) (i j : Nat) (h : ¬ (i < e.size.1 ∧ j < e.
     e.cell i j = none := by
   induction e generalizing i j with
   | leaf rows columns => simp only [MExpr.size] at h; simp [MExpr.cell, h]
+  | leafCM rows columns => simp only [MExpr.size] at h; simp [MExpr.cell, h]
   | range e rows columns ih => simp only [MExpr.cell]; rw [if_neg h]
   | reverse e fr fc ih => simp only [MExpr.size] at h; simp only [MExpr.cell]; rw [if_neg h]
   | map e ih => simp only [MExpr.size] at h; simp only [MExpr.cell]; exact ih i j h
@@ -24,6 +25,16 @@ theorem MExpr.cell_none (e : MExpr) (i j : Nat) (h : ¬ (i < e.size.1 ∧ j < e.
 theorem MExpr.size_le (e : MExpr) (h : e.LeavesOk) : e.size.1 ≤ usizeMax ∧ e.size.2 ≤ usizeMax := by
   induction e with
   | leaf rows columns =>
+    obtain ⟨hr, hc, hb⟩ := h
+    simp only [MExpr.size]
+    constructor
+    · calc rows = rows * 1 := by simp
+        _ ≤ rows * columns := Nat.mul_le_mul_left _ hc
+        _ ≤ usizeMax := hb
+    · calc columns = 1 * columns := by simp
+        _ ≤ rows * columns := Nat.mul_le_mul_right _ hr
+        _ ≤ usizeMax := hb
+  | leafCM rows columns =>
     obtain ⟨hr, hc, hb⟩ := h
     simp only [MExpr.size]
     constructor
@@ -46,6 +57,7 @@ theorem MExpr.cell_some (e : MExpr) (i j : Nat) (h : i < e.size.1 ∧ j < e.size
     (e.cell i j).isSome = true := by
   induction e generalizing i j with
   | leaf rows columns => simp only [MExpr.size] at h; simp [MExpr.cell, h]
+  | leafCM rows columns => simp only [MExpr.size] at h; simp [MExpr.cell, h]
   | range e rows columns ih =>
     simp only [MExpr.cell]; rw [if_pos h]
     simp only [MExpr.size] at h
@@ -90,6 +102,35 @@ theorem leaf_refines (rows columns : Nat) (hr : 1 ≤ rows) (hc : 1 ≤ columns)
       have h3 : j + i * columns ≤ usizeMax := by omega
       have h4 : j + i * columns < rows * columns := by omega
       simp [MatrixMeta.uget, cmul_ok h2, cadd_ok h3, h4, Nat.add_comm]
+    · simp at ho
+
+theorem leafCM_refines (rows columns : Nat) (hr : 1 ≤ rows) (hc : 1 ≤ columns)
+    (hb : rows * columns ≤ usizeMax) :
+    Refines (.leafCM rows columns)
+      ⟨⟨rows, columns, cmGet rows columns⟩, cmUget rows columns⟩ := by
+  have key : ∀ i j, i < rows → j < columns →
+      j * rows ≤ usizeMax ∧ j * rows + i ≤ usizeMax ∧ j * rows + i < rows * columns := by
+    intro i j hi hj
+    have h1 : (j + 1) * rows ≤ columns * rows := Nat.mul_le_mul_right _ (by omega)
+    rw [Nat.add_mul, Nat.mul_comm columns rows] at h1
+    simp only [Nat.one_mul] at h1
+    omega
+  refine ⟨rfl, rfl, ?_, ?_⟩
+  · intro i j
+    simp only [cmGet, MExpr.cell]
+    by_cases h : i < rows ∧ j < columns
+    · obtain ⟨h1, h2, h3⟩ := key i j h.1 h.2
+      simp [h.1, h.2, cmul_ok h1, cadd_ok h2, h3]
+    · have h' : ¬ (j < columns ∧ i < rows) := fun hh => h ⟨hh.2, hh.1⟩
+      simp [h, h']
+  · intro i j o ho
+    simp only [MExpr.cell] at ho
+    split at ho
+    · rename_i h
+      simp only [Option.some.injEq] at ho
+      subst ho
+      obtain ⟨h1, h2, h3⟩ := key i j h.1 h.2
+      simp [cmUget, cmul_ok h1, cadd_ok h2, h3]
     · simp at ho
 
 theorem range_refines (e : MExpr) (src : MViewU) (hsrc : Refines e src) (hle : e.LeavesOk)
@@ -229,6 +270,10 @@ theorem eval_refines (e : MExpr) (hle : e.LeavesOk) :
     obtain ⟨hr, hc, hb⟩ := hle
     simp only [MExpr.Buildable, if_true]
     exact ⟨_, rfl, leaf_refines rows columns hr hc hb⟩
+  | leafCM rows columns =>
+    obtain ⟨hr, hc, hb⟩ := hle
+    simp only [MExpr.Buildable, if_true]
+    exact ⟨_, rfl, leafCM_refines rows columns hr hc hb⟩
   | range e rows columns ih =>
     have ih := ih hle
     have hB : (MExpr.range e rows columns).Buildable = e.Buildable := rfl
